@@ -482,9 +482,9 @@ func runC12(c *core.Ctx) core.Meta {
 	// ---------------- R12.6 goroutine inventory ----------------
 	st6 := c.Rule("R12.6", "goroutines and multi-way selects of the driver are exactly the frozen inventory (Run->runAsync, runAsync->runEngine; selects in runAsync and Notify); the engine is run only from runEngine, under engineMutex; enqueueSignal is received only in runAsync", 4)
 	inventory := map[string]string{
-		"go:Driver.Run->Driver.runAsync":       "the driver thread",
-		"go:Driver.runAsync->Driver.runEngine": "the engine thread (one at a time, guarded by engineRunning)",
-		"select:Driver.runAsync":               "stop / enqueue signals",
+		"go:Driver.Run->Driver.runAsync":           "the driver thread",
+		"go:Driver.runAsync->Driver.runEngine":     "the engine thread (one at a time, guarded by engineRunning)",
+		"select:Driver.runAsync":                   "stop / enqueue signals",
 		"select:CommandQueueStatusListener.Notify": "non-blocking notification",
 	}
 	seen := map[string]bool{}
